@@ -207,7 +207,7 @@ def _linked(name, want):
         # a link to a slot that starts beyond the end of the file: the header lookup answers None and the type test
         # subscripts it (TypeError: allowed from an enumeration by C19, never reached by the constructor); so may the
         # construction of the linked section itself, which follows its own link
-        may_raise = ["ELFError", "OverflowError", "TypeError"]
+        may_raise = ["ELFError", "OverflowError", "TypeError", "AttributeError"]
     return _l
 
 
